@@ -117,6 +117,8 @@ pub struct G {
     pub tasks: Vec<Id>,
     pub adapters: Vec<Id>,
     pub sigsrc: Vec<Id>,
+    /// how many signals of the universe this run uses
+    pub nsig: u64,
     /// per-run swarm switches
     sw: Swarm,
 }
@@ -597,7 +599,10 @@ pub fn generate(profile_name: &str, seed: u64) -> Program {
     let p = profile(profile_name);
     let mut rng = Rng::new(seed ^ 0xC0FF_EE00_0000_0000);
     let sw = gen_swarm(&mut rng, &p);
-    let mut g = G { rng, p: p.clone(), next_id: 0, srcs: vec![], idles: vec![], tasks: vec![], adapters: vec![], sigsrc: vec![], sw };
+    let mut g = G { rng, p: p.clone(), next_id: 0, srcs: vec![], idles: vec![], tasks: vec![], adapters: vec![], sigsrc: vec![], nsig: 4, sw };
+    if p.signals > 0 {
+        g.nsig = *g.rng.pick(&[2u64, 4, 4, 10, 10]);
+    }
     let mut n = g.rng.range(p.steps.0, p.steps.1);
     if g.rng.chance(1, 12) {
         // a long history now and then
